@@ -149,8 +149,9 @@ class Explorer:
         conns = pool.connections
         if len(conns) > maxc:
             self.violations.append(("C04:limit-exceeded", {"where": where, "conns": [c.info() for c in conns]}))
-        # C07: no serviceable waiter
-        for pr in list(pool._requests):
+        # C07: no serviceable waiter (skipped while some task is still inside a connection close: its pass follows)
+        closing_in_progress = any(p.rec["op"] == "close" for p in self.net.pending if not p.done)
+        for pr in ([] if closing_in_progress else list(pool._requests)):
             if pr.is_queued():
                 origin = pr.request.url.origin
                 avail = [c for c in conns if c.can_handle_request(origin) and c.is_available()]
@@ -186,6 +187,19 @@ class Explorer:
 # runtimes
 # -----------------------------------------------------------------------------------------------------
 
+def make_vloop():
+    import asyncio
+
+    class VLoop(asyncio.SelectorEventLoop):
+        """asyncio loop on a virtual clock: time only moves when the harness ticks it"""
+        _vtime = 1000.0
+
+        def time(self):
+            return self._vtime
+
+    return VLoop()
+
+
 def run_asyncio(ex, schedule_fn):
     import asyncio
 
@@ -201,6 +215,8 @@ def run_asyncio(ex, schedule_fn):
                     if len(loop._ready) == 0:
                         break
 
+        ex.tick = lambda dt: setattr(loop, "_vtime", loop._vtime + dt)
+        ex.now = lambda: loop._vtime
         async with anyio.create_task_group() as tg:
             ex.make_pool()
 
@@ -220,7 +236,7 @@ def run_asyncio(ex, schedule_fn):
             await settle()
             tg.cancel_scope.cancel()
 
-    asyncio.run(main())
+    asyncio.run(main(), loop_factory=make_vloop)
 
 
 def run_trio(ex, schedule_fn):
@@ -231,6 +247,8 @@ def run_trio(ex, schedule_fn):
         async def settle():
             await trio.testing.wait_all_tasks_blocked()
 
+        ex.tick = lambda dt: clock.jump(dt)
+        ex.now = lambda: clock.current_time()
         async with trio.open_nursery() as nursery:
             ex.make_pool()
 
@@ -245,7 +263,8 @@ def run_trio(ex, schedule_fn):
             await schedule_fn(ex, spawn, settle)
             nursery.cancel_scope.cancel()
 
-    trio.run(main)
+    clock = trio.testing.MockClock()
+    trio.run(main, clock=clock)
 
 
 # -----------------------------------------------------------------------------------------------------
@@ -277,6 +296,8 @@ async def random_schedule(ex, spawn, settle):
             opts += ["release"] * 2
         if cfg.get("srvclose") and ex.peers:
             opts += ["srvclose"]
+        if cfg.get("pool_timeout") is not None and any(c.state == "running" for c in ex.callers):
+            opts += ["tick"]
         if not opts:
             break
         a = rng.choice(opts)
@@ -318,6 +339,11 @@ async def random_schedule(ex, spawn, settle):
             c = rng.choice(holding)
             ex.trace.append(("release", c.idx))
             c.release.set()
+        elif a == "tick":
+            dt = rng.choice([cfg["pool_timeout"] / 2, cfg["pool_timeout"], cfg["pool_timeout"] * 2])
+            ex.trace.append(("tick", dt))
+            ex.tick(dt)
+            await settle()          # timers fire on the next loop iteration
         elif a == "srvclose":
             p = rng.choice(ex.peers)
             p.server_closed = True
@@ -329,6 +355,8 @@ async def random_schedule(ex, spawn, settle):
     # ---- drain fairly: resolve everything, release everything -------------------------------------------
     for _ in range(400):
         progressed = False
+        if cfg.get("pool_timeout") is not None:
+            ex.tick(0.0)
         for c in ex.callers:
             if c.state == "holding":
                 c.release.set()
@@ -417,4 +445,7 @@ def signature_of(clause, detail, cfg, ex):
 
 
 def run_c07(ctx, rec):
-    explore(ctx, rec, "C07", {"p_fault": 0.15, "p_cancel": 0.0, "pool_timeout": None}, 40, 600, ["C07:"])
+    explore(ctx, rec, "C07", {"p_fault": 0.15, "p_cancel": 0.0, "pool_timeout": None}, 30, 400, ["C07:"])
+    explore(ctx, rec, "C07", {"p_fault": 0.1, "p_cancel": 0.12, "pool_timeout": None, "gate_close": True, "p_conn_close": 0.4}, 60, 800, ["C07:"])
+    explore(ctx, rec, "C07", {"p_fault": 0.05, "p_cancel": 0.05, "pool_timeout": 4.0, "gate_close": True, "p_conn_close": 0.4,
+                              "max_connections": 1}, 60, 800, ["C07:"])
